@@ -1,4 +1,9 @@
-"""C16 — validation rewrites identifiers and integers without altering the data."""
+"""C16 — validation rewrites identifiers and integers without altering the data.
+
+Parts: choose_int_dtype on type boundaries (1601/1605); is_ensembl (1603); validate_h5ad on small generated
+files (1604 + 1602); validate_h5ad and get_minmax_x_from_h5ad on block-layout files: matrices of several
+HDF5 chunks / doubled blocks in both directions with non-square chunk shapes, the entries that decide the
+integer type (and the only non-integer entry) placed on the edges of chunks, blocks and the matrix."""
 import json
 import re
 import warnings
@@ -245,17 +250,151 @@ def gen_validate_case(rng, malformed):
     }
 
 
+
+# ------------------------------------------------------------------ block-layout cases
+# The dense helpers of validation/utils.py walk a chunked matrix in blocks: _get_minmax_from_dense in
+# blocks of (chunk rows * 2^k, chunk columns * 2^k), _is_dense_x_integers and _round_dense_x_to_integers
+# chunk by chunk.  These cases aim at those loops: matrices of several blocks in both directions, chunk
+# shapes with fewer rows than columns, more rows than columns and square, and the entries that decide the
+# outcome (the extreme value that fixes the integer type; the only non-integer of the matrix) placed on
+# the first / last row or column of a chunk, of a grown block, of the matrix, or anywhere.
+DECIDERS = {
+    'max8': [300.4, 256.0, 255.75, 1000.5, 257.25],
+    'max16': [70000.3, 65536.0, 65535.75, 100000.5],
+    'max32': [5.0e9, 4294968000.5],
+    'neg8': [-3.6, -1.0, -0.75, -100.25, -128.0],
+    'neg16': [-129.0, -200.5, -32768.0, -1000.25],
+    'neg32': [-40000.25, -32769.0],
+}
+
+
+def _edges(n, steps):
+    """first / last indices of the blocks of width s (s in steps) along an axis of length n"""
+    out = {0, n - 1}
+    for s in steps:
+        if s <= 0:
+            continue
+        k = s
+        while k < n:
+            out.add(k - 1)
+            out.add(k)
+            k += s
+    return sorted(out)
+
+
+def _special_position(rng, shape, chunk):
+    """(row, column) on a block boundary of either axis - measured with the row step AND the column
+    step along both axes, for the raw chunk and every doubling of it - or anywhere"""
+    steps = []
+    for base in chunk:
+        s = base
+        while s < 2 * max(shape):
+            steps.append(s)
+            s *= 2
+    pos = []
+    for n in shape:
+        pos.append(rng.choice(_edges(n, steps)) if rng.random() < 0.75 else rng.randrange(n))
+    return tuple(pos)
+
+
+def gen_block_case(rng, big):
+    n_cells = rng.randrange(12, 90 if big else 60)
+    n_genes = rng.randrange(12, 140 if big else 90)
+    enc = rng.choice(['dense'] * 6 + ['csr', 'csc'])
+    layout = rng.choice(['wide', 'wide', 'wide', 'tall', 'tall', 'square', 'contiguous', 'anndata'])
+    chunk_shape, chunks = None, None
+    if layout == 'wide':            # fewer rows than columns: the usual few-cells x many-genes chunk
+        r = rng.randrange(1, min(n_cells, n_genes) // 2)
+        chunk_shape = (r, rng.randrange(r + 1, n_genes + 1))
+    elif layout == 'tall':
+        c = rng.randrange(1, min(n_cells, n_genes) // 2)
+        chunk_shape = (rng.randrange(c + 1, n_cells + 1), c)
+    elif layout == 'square':
+        r = rng.randrange(1, min(n_cells, n_genes))
+        chunk_shape = (r, r)
+    elif layout == 'contiguous':
+        chunks = 'contiguous'
+    if chunk_shape is not None:
+        chunk_shape = (min(chunk_shape[0], n_cells), min(chunk_shape[1], n_genes))
+        chunks = max(1, min(chunk_shape))          # what a sparse encoding uses (1-d chunks)
+    dtype = np.float32 if rng.random() < 0.4 else np.float64
+    fill = rng.choice(['ints', 'ints', 'quarter'])   # 'ints': whole numbers stored as floats
+    M = np.zeros((n_cells, n_genes), dtype=dtype)
+    for i in range(n_cells):
+        for j in range(n_genes):
+            if rng.random() < 0.5:
+                M[i, j] = rng.randrange(1, 51) + (0.25 if fill == 'quarter' else 0.0)
+    grid = chunk_shape or (max(1, n_cells // 3), max(1, n_genes // 4))
+    kinds = rng.choice([['max8'], ['max16'], ['max32'], ['neg8'], ['neg16'], ['neg32'], ['neg8', 'max8'],
+                        ['neg8', 'max16'], ['neg16', 'max16'], ['max8'], ['max16'], []])
+    special = []
+    taken = set()
+    for kd in kinds:
+        v = rng.choice(DECIDERS[kd])
+        for _ in range(20):
+            pos = _special_position(rng, M.shape, grid)
+            if pos not in taken:
+                break
+        taken.add(pos)
+        M[pos] = v
+        special.append([kd, list(pos), float(M[pos])])
+    if rng.random() < 0.6 or not special:
+        # the only entry that may make the matrix non-integer (when fill == 'ints' and the deciders are whole)
+        for _ in range(20):
+            pos = _special_position(rng, M.shape, grid)
+            if pos not in taken:
+                break
+        if pos not in taken:
+            M[pos] = rng.choice([7.5, 0.5, 12.25, 3.75])
+            special.append(['fraction', list(pos), float(M[pos])])
+    known = {'Xkr4': 'ENSMUSG00000051951', 'Rp1': 'ENSMUSG00000025900.7'}
+    genes = [f'ENSMUSG{j:011d}' for j in range(1000, 1000 + n_genes)]
+    if rng.random() < 0.3:
+        genes[rng.randrange(n_genes)] = 'Xkr4'
+    if rng.random() < 0.2:
+        genes[rng.randrange(n_genes)] = 'some_unknown_gene'
+    return {
+        'cells': [f'cell_{i}' for i in range(n_cells)], 'genes': genes, 'tbl': known, 'M': M,
+        'vkind': 'block:' + '+'.join(kinds or ['none']), 'encoding': enc,
+        'layer': rng.choice([None, None, None, 'raw']),
+        'round': rng.random() < 0.9,
+        'chunks': chunks, 'chunk_shape': chunk_shape if enc == 'dense' else None,
+        'layout': layout if enc == 'dense' else 'sparse-1d-chunks' if isinstance(chunks, int) else f'sparse-{chunks}', 'special': special,
+        'malformed': False, 'big': True,
+    }
+
+
+def stored_minmax(c):
+    """exact (min, max) of the values the file stores (a sparse encoding stores no zeros)"""
+    M = c['M']
+    vals = M.reshape(-1) if c['encoding'] == 'dense' else M[M != 0]
+    if vals.size == 0:
+        return None
+    return exact(vals.min()), exact(vals.max())
+
+
 def validate_cases(ctx):
+    rng = ctx.rng
+    cases = [gen_validate_case(rng, malformed=(rng.random() < 0.25)) for _ in range(ctx.n(120, 3000))]
+    run_validate(ctx, cases, 'validate')
+
+
+def block_cases(ctx):
+    rng = ctx.rng
+    big = ctx.n(0, 1) == 1
+    cases = [gen_block_case(rng, big) for _ in range(ctx.n(110, 1500))]
+    run_validate(ctx, cases, 'blocks')
+
+
+def run_validate(ctx, case_list, label):
     import anndata
     from cell_type_mapper.validation.validate_h5ad import validate_h5ad
+    from cell_type_mapper.validation.utils import get_minmax_x_from_h5ad
     from cell_type_mapper.gene_id.gene_id_mapper import GeneIdMapper
-    rng = ctx.rng
-    n = ctx.n(120, 3000)
     recs = []
-    d = ctx.scratch / 'validate'
+    d = ctx.scratch / label
     d.mkdir()
-    for i in range(n):
-        c = gen_validate_case(rng, malformed=(rng.random() < 0.25))
+    for i, c in enumerate(case_list):
         src = d / f'in_{i}.h5ad'
         out = d / f'out_{i}.h5ad'
         tmp = d / f'tmp_{i}'
@@ -265,7 +404,7 @@ def validate_cases(ctx):
         with warnings.catch_warnings():
             warnings.simplefilter('ignore')
             gen.write_h5ad(src, M, c['cells'], c['genes'], encoding=c['encoding'], layer=c['layer'],
-                           obs_cols=obs_cols, chunks=c['chunks'],
+                           obs_cols=obs_cols, chunks=c['chunks'], chunk_shape=c.get('chunk_shape'),
                            x_other=np.full(M.shape, 7.25, dtype=np.float32) if c['layer'] else None)
         before = gen.digest(src)
         stored = M  # what is stored (for sparse: implicit zeros are not 'stored values')
@@ -276,6 +415,19 @@ def validate_cases(ctx):
         is_int_dtype = np.issubdtype(M.dtype, np.integer)
         x_is_int = bool(is_int_dtype or vals.size == 0 or np.all(vals == np.round(vals)))
         obs = {}
+        # the inner function that feeds choose_int_dtype, on the file as it is laid out
+        want = stored_minmax(c)
+        if want is not None and not c['malformed']:
+            try:
+                with warnings.catch_warnings():
+                    warnings.simplefilter('ignore')
+                    lo_, hi_ = get_minmax_x_from_h5ad(src, layer=c['layer'] or 'X')
+                obs['minmax'] = [repr(lo_), repr(hi_)]
+                obs['minmax_ok'] = (exact(lo_), exact(hi_)) == want
+            except Exception as e:
+                obs['minmax'] = f'{exc_class(e)}: {e}'[:200]
+                obs['minmax_ok'] = False
+            obs['minmax_unchanged'] = gen.digest(src) == before
         try:
             with warnings.catch_warnings():
                 warnings.simplefilter('ignore')
@@ -329,18 +481,38 @@ def validate_cases(ctx):
     for k, ((c, x_is_int, obs), r) in enumerate(zip(recs, res)):
         desc = {'kind': 'validate_h5ad', 'cells': c['cells'], 'genes': c['genes'], 'tbl': c['tbl'],
                 'M': c['M'].tolist(), 'M_dtype': str(c['M'].dtype), 'encoding': c['encoding'], 'layer': c['layer'],
-                'round': c['round'], 'chunks': c['chunks'], 'model': r,
+                'round': c['round'], 'chunks': c['chunks'], 'chunk_shape': c.get('chunk_shape'),
+                'special_entries': c.get('special'), 'model': r,
                 'observed': {kk: (vv.tolist() if hasattr(vv, 'tolist') else vv) for kk, vv in obs.items()}}
         changed_ids = False
         nontriv = (not c['malformed']) and (r[0] == 0 and (r[1][4] or r[1][2]))
-        ctx.count(('val', k, json.dumps(desc['genes']), desc['encoding'], str(desc['layer'])), nontrivial=bool(nontriv))
+        ctx.count(('val', label, k, json.dumps(desc['genes']), desc['encoding'], str(desc['layer'])), nontrivial=bool(nontriv))
         ctx.dist('validate_outcome', 'error%d' % r[1] if r[0] == 1 else ('newfile' if r[1][0] else 'nofile'))
         ctx.dist('encoding', c['encoding'])
         ctx.dist('values', c['vkind'])
-        if nontriv:
+        if c.get('big'):
+            ctx.dist('block_layout', c['layout'])
+            if c.get('chunk_shape'):
+                cs = c['chunk_shape']
+                ctx.dist('block_chunk_aspect', 'rows<cols' if cs[0] < cs[1] else 'rows>cols' if cs[0] > cs[1] else 'square')
+                for kd, pos, _v in c['special']:
+                    # where the deciding entry sits inside its chunk-column / chunk-row
+                    ctx.dist('block_special_col_in_chunk', 'col-offset>=chunk-rows' if pos[1] % cs[1] >= cs[0] else 'col-offset<chunk-rows')
+                    ctx.dist('block_special_row_in_chunk', 'row-offset>=chunk-cols' if pos[0] % cs[0] >= cs[1] else 'row-offset<chunk-cols')
+            if nontriv:
+                ctx.sample({'shape': list(c['M'].shape), 'M_dtype': str(c['M'].dtype), 'encoding': c['encoding'],
+                            'layout': c['layout'], 'chunk_shape': c.get('chunk_shape'), 'chunks': c['chunks'],
+                            'special_entries': c['special'], 'layer': c['layer'], 'round': c['round'],
+                            'out_dtype': obs.get('X_dtype')}, limit=7)
+        elif nontriv:
             ctx.sample({kk: desc[kk] for kk in ('genes', 'encoding', 'layer', 'round', 'M', 'model')}, limit=4)
         problems = []
         prop_fail = []
+        if obs.get('minmax_ok') is False:
+            prop_fail.append(f'minmax of the stored matrix: get_minmax_x_from_h5ad returned {obs["minmax"]}, the stored values '
+                             f'span {[float(v) for v in stored_minmax(c)]}')
+        if obs.get('minmax_unchanged') is False:
+            prop_fail.append('input file bytes changed by get_minmax_x_from_h5ad')
         if not obs['input_unchanged']:
             prop_fail.append('input file bytes changed')
         if obs['tmp_left']:
@@ -370,7 +542,13 @@ def validate_cases(ctx):
                     got = np.array([[int(v) for v in row] for row in X.tolist()], dtype=object).reshape(Mx.shape) \
                         if X.size else X
                     if X.shape != Mx.shape or not np.issubdtype(X.dtype, np.integer) or not (got == exp).all():
-                        prop_fail.append(f'rounded X differs: got {X.tolist()} ({X.dtype}) expected {exp.tolist()}')
+                        if X.shape == Mx.shape and X.size > 64:
+                            bad_at = [tuple(int(q) for q in ix) for ix in np.argwhere(got != exp)[:3]]
+                            prop_fail.append(f'rounded X differs: dtype {X.dtype}; ' + '; '.join(
+                                f'X{ix} input {Mx[ix]!r} became {X[ix]!r}, expected {exp[ix]}' for ix in bad_at)
+                                + f' ({int((got != exp).sum())} entries differ)')
+                        else:
+                            prop_fail.append(f'rounded X differs: got {X.tolist()} ({X.dtype}) expected {exp.tolist()}')
                 else:
                     if X.shape != Mx.shape or not (X.astype(np.float64) == Mx.astype(np.float64)).all():
                         prop_fail.append('X differs from the requested layer')
@@ -406,7 +584,11 @@ def validate_cases(ctx):
 def run(ctx):
     ctx.rule = ('choose_int_dtype on all boundary values 2^k(+-0.5,1,1.5,2), k in {7,8,15,16,31,32,63,64}, both signs, '
                 'int/float/float32/float64 + random pairs; is_ensembl on generated strings; validate_h5ad on generated '
-                'files (<=5x5, dense/csr/csc, X or layer, chunk layouts, id mixes, rounding on/off, 25% malformed). '
+                'files (<=5x5, dense/csr/csc, X or layer, chunk layouts, id mixes, rounding on/off, 25% malformed); '
+                'validate_h5ad + get_minmax_x_from_h5ad on block-layout files (12-90 cells x 12-140 genes; dense in HDF5 chunks '
+                '(r, c) with r < c, r > c, r = c, contiguous, as anndata writes; csr/csc in 1-d chunks; the entries deciding the '
+                'integer type - max above 255 / 65535 / 2^32, negative min below 0 / -128 / -32768 - and the only non-integer '
+                'entry placed on first/last rows and columns of chunks, of doubled blocks and of the matrix). '
                 'non-trivial = distinct dtype pair / string accepted by is_ensembl / validate case that is well-formed '
                 'and changes ids or rounds')
     ctx.assumptions += ['is_x_integers is an oracle input of the model (generated values are integers or at least 0.25 away)',
@@ -414,6 +596,7 @@ def run(ctx):
     dtype_cases(ctx)
     ensembl_cases(ctx)
     validate_cases(ctx)
+    block_cases(ctx)
 
 
 def replay(ctx, rec):
